@@ -280,6 +280,17 @@ def run_model(cases, timeout_per_batch=None):
 
 # ----------------------------------------------------------------------------- traces
 
+_DOC = {"P:range_end", "P:range_order", "P:range_start_overflow", "P:range_end_overflow",
+        "P:swap_i", "P:swap_j", "P:index", "P:other"}
+
+
+def canon_panic(ret):
+    """the *text* of a documented panic is not part of any property (only when it happens, and that
+    the buffer is unchanged): every documented panic — and any panic the harness cannot attribute to
+    the standard library's arithmetic / bounds / assertion messages — is `P:doc`"""
+    return "P:doc" if ret in _DOC else ret
+
+
 class Line:
     __slots__ = ("raw", "ret", "events", "start", "size", "window", "allocs", "views", "crash")
     def __init__(self, raw):
@@ -290,7 +301,7 @@ class Line:
             self.crash = True
             self.ret, self.events, self.start, self.size, self.window, self.allocs, self.views = raw, [], -1, -1, [], 0, "ok"
             return
-        self.ret = parts[0]
+        self.ret = canon_panic(parts[0])
         self.events = parts[1].split() if parts[1] else []
         ss = parts[2].split()
         self.start, self.size = int(ss[0]), int(ss[1])
